@@ -241,3 +241,28 @@ def fresh(v):
     if isinstance(v, tuple) and v:
         return tuple(list(v))
     return v
+
+
+class StrSub(str):
+    """a str subclass (what many libraries hand out: numpy.str_, markupsafe.Markup, enum-mixed strings): it compares natively with str"""
+    __slots__ = ()
+
+
+class DateSub(datetime.date):
+    """a date subclass that compares natively with date"""
+    __slots__ = ()
+
+
+def with_subtypes(table, every=2):
+    """the same table with every `every`-th str / date cell (header excluded) replaced by an equal instance of a subclass"""
+    out, n = [table[0]], 0
+    for row in table[1:]:
+        new = []
+        for c in row:
+            if type(c) is str or type(c) is datetime.date:
+                n += 1
+                if n % every == 0:
+                    c = StrSub(c) if type(c) is str else DateSub(c.year, c.month, c.day)
+            new.append(c)
+        out.append(type(row)(new) if isinstance(row, (list, tuple)) else new)
+    return out
